@@ -20,6 +20,19 @@ open MitmVerif MitmVerif.C22 MitmVerif.Gen.C22 MitmVerif.Lemmas.C22
 /-- the class `Block` acts on: that of the IPv4-mapped view of the parsed address -/
 abbrev classOf (a : Addr) : Cls := classify (effective a)
 
+/-! ### the mode exemption (class hierarchy regenerated from `mode_specs` on every run) -/
+
+/-- **only local-redirect mode is exempt.** Among all registered proxy mode classes exactly
+    `LocalMode` passes `isinstance(client.proxy_mode, LocalMode)` — no other mode class inherits
+    from it. -/
+theorem only_local_mode_exempt (m : Mode) : m.isLocal = true ↔ m = Mode.local := by
+  cases m <;> decide
+
+private theorem not_local (m : Mode) (hm : m ≠ Mode.local) : m.isLocal = false := by
+  cases h : m.isLocal
+  · rfl
+  · exact absurd ((only_local_mode_exempt m).1 h) hm
+
 /-! ### decision theorems -/
 
 /-- **block_global.** Whatever the notation of the peer text: if it denotes a globally routable,
@@ -28,7 +41,7 @@ theorem global_refused (peer : Text) (a : Addr) (m : Mode) (bp : Bool)
     (hp : parseIp (peerHost peer) = some a) (hg : (classOf a).glob = true)
     (hl : (classOf a).loop = false) (hm : m ≠ Mode.local) :
     verdict peer m true bp = Verdict.killedGlobal ∧ (verdict peer m true bp).refused = true := by
-  have hm' : m.isLocal = false := by cases m <;> simp_all [Mode.isLocal]
+  have hm' : m.isLocal = false := not_local m hm
   simp only [classOf] at hg hl
   simp [verdict, hp, decideAddr, hg, hl, hm', Verdict.refused]
 
@@ -37,7 +50,7 @@ theorem private_refused (peer : Text) (a : Addr) (m : Mode) (bg : Bool)
     (hp : parseIp (peerHost peer) = some a) (hv : (classOf a).priv = true)
     (hl : (classOf a).loop = false) (hm : m ≠ Mode.local) :
     (verdict peer m bg true).refused = true := by
-  have hm' : m.isLocal = false := by cases m <;> simp_all [Mode.isLocal]
+  have hm' : m.isLocal = false := not_local m hm
   simp only [classOf] at hv hl
   simp only [verdict, hp, decideAddr, hv, hl, hm']
   cases bg <;> cases (classify (effective a)).glob <;> simp [Verdict.refused]
@@ -49,7 +62,8 @@ theorem loopback_and_localmode_exempt (peer : Text) (a : Addr) (m : Mode) (bg bp
   simp only [classOf] at h
   rcases h with h | h
   · simp [verdict, hp, decideAddr, h]
-  · subst h; simp [verdict, hp, decideAddr, Mode.isLocal]
+  · have hl : m.isLocal = true := (only_local_mode_exempt m).2 h
+    simp [verdict, hp, decideAddr, hl]
 
 /-- **nothing else is refused.** A refusal happens only for a parseable, non-loopback source outside
     local mode that is global with block_global on, or private with block_private on. -/
@@ -65,9 +79,13 @@ theorem others_not_refused (peer : Text) (m : Mode) (bg bp : Bool)
     simp only [hp, decideAddr] at h
     simp only [classOf]
     cases hloop : (classify (effective a)).loop
-    · cases m <;> cases bg <;> cases bp <;>
-        cases hg : (classify (effective a)).glob <;> cases hv : (classify (effective a)).priv <;>
-        simp_all [Mode.isLocal, Verdict.refused]
+    · cases hml : m.isLocal
+      · have hne : m ≠ Mode.local := fun e => by
+          rw [(only_local_mode_exempt m).2 e] at hml; exact Bool.noConfusion hml
+        cases bg <;> cases bp <;>
+          cases hg : (classify (effective a)).glob <;> cases hv : (classify (effective a)).priv <;>
+          simp_all [Verdict.refused]
+      · simp [hloop, hml, Verdict.refused] at h
     · simp [hloop, Verdict.refused] at h
 
 /-- the error branch: a peer text `ipaddress` rejects makes the hook raise; `client.error` stays
@@ -289,6 +307,119 @@ theorem public_sample_global6 (n : Nat) (sc : Option Text)
     c.glob = true ∧ c.priv = false ∧ c.loop = false := by
   simp only [classify]
   exact globOnly_iff _ (allIn_sound globOnly v6Table _ _ n (by decide +kernel) h1 h2)
+
+/-! ### the interval tables ARE `ipaddress`' network membership (no constancy assumption) -/
+
+/-- every network constant of the interpreter has a network address without host bits -/
+theorem networks_aligned :
+    (private4.all (aligned 32) && public4.all (aligned 32) && loopback4.all (aligned 32)) = true ∧
+    (private6.all (aligned 128) && loopback6.all (aligned 128)) = true := by
+  constructor <;> decide +kernel
+
+/-- **IPv4 table = membership.** For EVERY IPv4 address the class looked up in the generated interval
+    table is the class computed by membership in the interpreter's `_loopback_network`,
+    `_private_networks`, `_public_network` (the 3.12.1 definitions of is_loopback / is_private / is_global). -/
+theorem table_eq_membership4 (n : Nat) (hn : n ≤ 4294967295) :
+    classify (Addr.v4 n) = memberCls (Addr.v4 n) := by
+  simp only [classify, memberCls]
+  exact rowsMatch_sound memberCls4 uniform4 (memberCls4_const networks_aligned.1) v4Table 0 max4 n
+    (by decide +kernel) (Nat.zero_le _) hn
+
+/-- **IPv6 table = membership**, for every IPv6 address outside the IPv4-mapped block (mapped
+    addresses reach the classification as IPv4 addresses, `effective_not_mapped`). -/
+theorem table_eq_membership6 (n : Nat) (sc : Option Text)
+    (hn : n ≤ 340282366920938463463374607431768211455) (hm : n / 4294967296 ≠ 0xFFFF) :
+    classify (Addr.v6 n sc) = memberCls (Addr.v6 n sc) := by
+  simp only [classify, memberCls]
+  by_cases h : n ≤ 281470681743359
+  · exact rowsMatch_sound memberCls6 uniform6 (memberCls6_const networks_aligned.2) v6Table 0 281470681743359 n
+      (by decide +kernel) (Nat.zero_le _) h
+  · exact rowsMatch_sound memberCls6 uniform6 (memberCls6_const networks_aligned.2) v6Table 281474976710656 max6 n
+      (by decide +kernel) (by omega) hn
+
+/-- what `address.ipv4_mapped or address` hands to the classification is never an IPv4-mapped IPv6 address -/
+theorem effective_not_mapped (a : Addr) (n : Nat) (sc : Option Text) (h : effective a = Addr.v6 n sc) :
+    n / 4294967296 ≠ 0xFFFF := by
+  cases a with
+  | v4 k => simp [effective] at h
+  | v6 k s =>
+    simp only [effective] at h
+    split at h
+    · exact Addr.noConfusion h
+    · injection h with h1 _; subst h1; assumption
+
+/-- an address value as `ipaddress` can hold it -/
+def wf : Addr → Prop
+  | .v4 n => n ≤ 4294967295
+  | .v6 n _ => n ≤ 340282366920938463463374607431768211455
+
+/-- the class `Block` acts on is the membership class of the IPv4-mapped view, for every address -/
+theorem classOf_eq_membership (a : Addr) (hw : wf a) : classOf a = memberCls (effective a) := by
+  simp only [classOf]
+  cases a with
+  | v4 n => exact table_eq_membership4 n hw
+  | v6 n sc =>
+    simp only [effective]
+    split
+    · exact table_eq_membership4 _ (by omega)
+    · exact table_eq_membership6 n sc hw (by assumption)
+
+/-- **the decision in terms of `ipaddress`' own networks**: refused iff not loopback-network member, not
+    local mode, and (block_global and not private and not in the shared-space network, resp.
+    block_private and member of a private network) -/
+theorem refused_iff_membership (peer : Text) (a : Addr) (m : Mode) (bg bp : Bool)
+    (hp : parseIp (peerHost peer) = some a) (hw : wf a) :
+    (verdict peer m bg bp).refused = true ↔
+      ((memberCls (effective a)).loop = false ∧ m ≠ Mode.local ∧
+        ((bg = true ∧ (memberCls (effective a)).glob = true) ∨
+         (bp = true ∧ (memberCls (effective a)).priv = true))) := by
+  have hc := classOf_eq_membership a hw
+  simp only [classOf] at hc
+  constructor
+  · intro h
+    obtain ⟨a', hp', h1, h2, h3⟩ := others_not_refused peer m bg bp h
+    rw [hp] at hp'; injection hp' with e; subst e
+    simp only [classOf, hc] at h1 h3
+    exact ⟨h1, h2, h3⟩
+  · intro ⟨h1, h2, h3⟩
+    rcases h3 with ⟨hb, hg⟩ | ⟨hb, hv⟩
+    · subst hb
+      exact (global_refused peer a m bp hp (by simp only [classOf, hc]; exact hg)
+        (by simp only [classOf, hc]; exact h1) h2).2
+    · subst hb
+      exact private_refused peer a m bg hp (by simp only [classOf, hc]; exact hv)
+        (by simp only [classOf, hc]; exact h1) h2
+
+private theorem parseOctet_le (s : Text) (v : Nat) (h : parseOctet s = some v) : v ≤ 255 := by
+  unfold parseOctet at h
+  split at h; · cases h
+  split at h; · cases h
+  split at h; · cases h
+  split at h; · cases h
+  simp only at h
+  split at h
+  · cases h
+  · injection h with h; omega
+
+/-- the IPv4 parser only produces 32-bit values -/
+theorem parseV4_wf (s : Text) (n : Nat) (h : parseV4 s = some n) : wf (Addr.v4 n) := by
+  unfold parseV4 at h
+  split at h; · cases h
+  split at h; · cases h
+  split at h
+  · rename_i a b c d _
+    cases ha : parseOctet a <;> cases hb : parseOctet b <;> cases hc : parseOctet c <;>
+      cases hd : parseOctet d <;> simp [ha, hb, hc, hd] at h
+    have := parseOctet_le _ _ ha; have := parseOctet_le _ _ hb
+    have := parseOctet_le _ _ hc; have := parseOctet_le _ _ hd
+    simp only [wf]; omega
+  · cases h
+
+-- membership and table agree on concrete addresses, and membership is not constant
+example : memberCls (Addr.v4 134744072) = ⟨false, false, true⟩ := by decide +kernel      -- 8.8.8.8
+example : memberCls (Addr.v4 167772161) = ⟨false, true, false⟩ := by decide +kernel      -- 10.0.0.1
+example : memberCls (Addr.v4 1681915905) = ⟨false, false, false⟩ := by decide +kernel    -- 100.64.0.1
+example : memberCls (Addr.v6 1 none) = ⟨true, true, false⟩ := by decide +kernel           -- ::1
 
 /-! ### end-to-end corollaries -/
 
